@@ -4,6 +4,7 @@
 //   C15  UniqueHandle closes exactly once (ownership histories) + out-of-band handle transfer over handle-bearing types
 // Histories: every sequence up to a bounded length over a concrete operation alphabet (exhaustive), random beyond.
 #define VF_RT_MAIN
+#include <memory>
 #include <set>
 #include <stdexcept>
 #include <unordered_map>
@@ -423,6 +424,24 @@ static void c13_comparisons() {
     { g_live.clear(); { nop::Optional<TA> a, b; if (sa >= 0) a = TA(sa); if (sb >= 0) b = TA(sb); cmp_pair("tracked-tracked", a, b, sa, sb); if (sb >= 0) { TA v(sb); cmp_value("tracked-tracked", a, v, sa, sb); } } if (!g_live.empty() || !g_fault.empty()) rep().violation("C13:registry:compare", "comparison leaked or used a dead object", ""); g_fault.clear(); }
     { nop::Entry<int, 1> a; nop::Entry<int, 2> b; if (sa >= 0) a = sa; if (sb >= 0) b = sb; cmp_pair("entry-entry", static_cast<const nop::Optional<int>&>(a), static_cast<const nop::Optional<int>&>(b), sa, sb); }
   }
+  // other value kinds: bool, mixed arithmetic, raw and shared pointers against pointers and the nullptr literal (== and != only: the order of unrelated pointers is not a value order)
+  for (int sa = -1; sa < 2; sa++) for (int sb = 0; sb < 2; sb++) {
+    { nop::Optional<bool> a; if (sa >= 0) a = (bool)sa; cmp_value("bool-bool", a, (bool)sb, sa, sb); }
+    { nop::Optional<double> a; if (sa >= 0) a = (double)sa; cmp_value("double-int", a, sb, sa, sb); }
+    { nop::Optional<char> a; if (sa >= 0) a = (char)('a' + sa); cmp_value("char-char", a, (char)('a' + sb), sa, sb); }
+  }
+  { static int cell[2] = {0, 0};
+    struct { const char* name; bool engaged; int* p; } st[] = {{"empty", false, nullptr}, {"engaged(nullptr)", true, nullptr}, {"engaged(&x)", true, &cell[0]}, {"engaged(&y)", true, &cell[1]}};
+    for (auto& q : st) {
+      nop::Optional<int*> o; if (q.engaged) o = q.p; nop::Optional<std::shared_ptr<int>> so; if (q.engaged) so = q.p ? std::shared_ptr<int>(std::shared_ptr<int>(), q.p) : std::shared_ptr<int>();
+      auto chk = [&](const char* what, bool got, bool want) { rep().note_enumerated(true); rep().count("c13_comparisons"); rep().count("c13_pointer_comparisons"); if (got != want) rep().violation(fmt("C13:order:Optional-value:pointer:%s", what), fmt("Optional<pointer> %s: %s = %d, expected %d (an empty Optional equals no value, an engaged one compares its value)", q.name, what, (int)got, (int)want), case_desc("Optional-compare", -1, "pointer")); };
+      const bool isnull = q.engaged && q.p == nullptr;
+      chk("o == nullptr", o == nullptr, isnull); chk("nullptr == o", nullptr == o, isnull); chk("o != nullptr", o != nullptr, !isnull); chk("nullptr != o", nullptr != o, !isnull);
+      chk("o == &x", o == &cell[0], q.engaged && q.p == &cell[0]); chk("&x == o", &cell[0] == o, q.engaged && q.p == &cell[0]); chk("o != &x", o != &cell[0], !(q.engaged && q.p == &cell[0]));
+      int* np = nullptr; chk("o == (int*)nullptr", o == np, isnull); chk("o != (int*)nullptr", o != np, !isnull);
+      chk("shared_ptr: o == nullptr", so == nullptr, isnull); chk("shared_ptr: nullptr == o", nullptr == so, isnull); chk("shared_ptr: o != nullptr", so != nullptr, !isnull);
+      nop::Optional<int*> e2; chk("o == Optional{}", o == e2, !q.engaged); nop::Optional<int*> n2(np); chk("o == Optional{nullptr}", o == n2, isnull);
+    } }
   // nested optionals: rank -2 = empty, -1 = engaged holding an empty inner optional, k >= 0 = engaged holding engaged(k); the same total order applies one level down
   for (int sa = -2; sa < 4; sa++) for (int sb = -2; sb < 4; sb++) {
     using OO = nop::Optional<nop::Optional<int>>;
